@@ -9,7 +9,10 @@
         parameters present)                                                        -> `valid`
    (S2) for an instantiable class, instantiate_classes returns an instance of exactly the named class,
         constructed once with exactly init_args + dict_kwargs, nested class arguments built first and
-        passed as objects                                                          -> `inst_ok`
+        passed as objects: the constructor log, read back as object trees (`trees`), shows the object
+        the configuration denotes (`denote`)                                       -> `inst_ok`
+        A TypeError is allowed only for an abstract class or for a dict_kwargs key the callable cannot
+        take (dict_kwargs are documented as not validated)              -> `instantiable`, `dk_accepted`
    (S3) short forms denote the same configuration as the explicit form             -> `expand_steps`
         (the judge demands equal observations for a case and its expansion)
    (S4) a fully explicit, single valid spec is accepted (so that "reject everything" is not a model
@@ -28,141 +31,137 @@ Definition target (F : family) (cp : str) : option (cls * list param) :=
   end.
 
 (* ---------- (S1) ---------------------------------------------------------------------------- *)
-Fixpoint valid (n : nat) (F : family) (base : str) (v : value) : bool :=
-  match n with
-  | 0 => false
-  | S n' =>
-      match v with
-      | VSpec cp ia dk =>
-          match target F cp with
-          | Some (k, ps) =>
-              is_subclass F (c_name k) base
-              && forallb (fun kv =>
-                   match find_param ps (fst kv) with
-                   | Some p => match p_ty p, snd kv with
-                               | PInt, VInt _ => true
-                               | PStr, VStr _ => true
-                               | PCls c, w => valid n' F c w
-                               | POpt c, VNull => true
-                               | POpt c, w => valid n' F c w
-                               | _, _ => false
-                               end
-                   | None => false
-                   end) ia
-              && forallb (fun p => match p_def p with
-                                   | Some _ => true
-                                   | None => ahas (p_name p) ia
-                                   end) ps
-          | None => false
-          end
-      | _ => false
+(* value `x` is of parameter type `t` (the class case is the recursive call below) *)
+Fixpoint valid (F : family) (base : str) (v : value) {struct v} : bool :=
+  match v with
+  | VSpec cp ia dk =>
+      match target F cp with
+      | Some (k, ps) =>
+          is_subclass F (c_name k) base
+          && forallb (fun kv =>
+               match find_param ps (fst kv) with
+               | Some p => match p_ty p with
+                           | PInt => match snd kv with VInt _ => true | _ => false end
+                           | PStr => match snd kv with VStr _ => true | _ => false end
+                           | PCls c => valid F c (snd kv)
+                           | POpt c => match snd kv with VNull => true | _ => valid F c (snd kv) end
+                           end
+               | None => false
+               end) ia
+          && forallb (fun p => match p_def p with
+                               | Some _ => true
+                               | None => ahas (p_name p) ia
+                               end) ps
+          (* no parameter is smuggled past the validation through dict_kwargs *)
+          && forallb (fun kv => match find_param ps (fst kv) with Some _ => false | None => true end) dk
+      | None => false
       end
+  | _ => false
   end.
 
 (* ---------- (S2) ---------------------------------------------------------------------------- *)
 (* no abstract class anywhere in the configuration *)
-Fixpoint instantiable (n : nat) (F : family) (v : value) : bool :=
-  match n with
-  | 0 => false
-  | S n' =>
-      match v with
-      | VSpec cp ia _ =>
-          match target F cp with
-          | Some (k, _) => negb (c_abstract k) && forallb (fun kv => instantiable n' F (snd kv)) ia
-          | None => false
-          end
-      | _ => true
+Fixpoint instantiable (F : family) (v : value) {struct v} : bool :=
+  match v with
+  | VSpec cp ia _ =>
+      match target F cp with
+      | Some (k, _) => negb (c_abstract k) && forallb (fun kv => instantiable F (snd kv)) ia
+      | None => false
       end
+  | _ => true
   end.
 
-(* every dict_kwargs key is something the callable can take: a var-keyword class *)
-Fixpoint dk_accepted (n : nat) (F : family) (v : value) : bool :=
-  match n with
-  | 0 => false
-  | S n' =>
-      match v with
-      | VSpec cp ia dk =>
-          match import_obj F cp with
-          | Some (ICls k) => (c_varkw k || match dk with [] => true | _ => false end)
-                             && forallb (fun kv => dk_accepted n' F (snd kv)) ia
-          | Some (IFun f) => match dk with [] => true | _ => false end
-                             && forallb (fun kv => dk_accepted n' F (snd kv)) ia
-          | _ => false
-          end
-      | _ => true
+(* dict_kwargs are, by documented design, handed to the constructor without validation ("arguments
+   that will not be validated during parsing, but will be used for class instantiation").  The call
+   Class( **init_args, **dict_kwargs ) is well-formed for CPython only if the callable can take every
+   dict_kwargs key: a class with a var-keyword parameter (the generated functions have none).
+   Where this fails the TypeError is raised by the call the property prescribes, not by jsonargparse. *)
+Fixpoint dk_accepted (F : family) (v : value) {struct v} : bool :=
+  match v with
+  | VSpec cp ia dk =>
+      match import_obj F cp with
+      | Some (ICls k) => (c_varkw k || match dk with [] => true | _ => false end)
+                         && forallb (fun kv => dk_accepted F (snd kv)) ia
+      | Some (IFun f) => match dk with [] => true | _ => false end
+                         && forallb (fun kv => dk_accepted F (snd kv)) ia
+      | _ => false
       end
+  | _ => true
   end.
 
-Fixpoint nodes (n : nat) (v : value) : nat :=
-  match n with
-  | 0 => 0
-  | S n' => match v with
-            | VSpec _ ia _ => S (fold_left (fun a kv => a + nodes n' (snd kv)) ia 0)
-            | _ => 0
-            end
+(* number of spec nodes = number of constructor calls the configuration asks for *)
+Fixpoint nodes (v : value) {struct v} : nat :=
+  match v with
+  | VSpec _ ia _ => S (fold_right (fun kv a => nodes (snd kv) + a) 0 ia)
+  | _ => 0
   end.
 
-(* the object tree a constructor log denotes *)
+(* object trees *)
 Inductive otree := TInt (z : Z) | TStr (s : str) | TNull | TObj (c : str) (kw : list (str * otree)) | TBad.
-
-Fixpoint decode (n : nat) (log : list entry) (a : arg) : otree :=
-  match n with
-  | 0 => TBad
-  | S n' =>
-      match a with
-      | AInt z => TInt z
-      | AStr s => TStr s
-      | ANull => TNull
-      | ARef i => match nth_error log i with
-                  | Some (c, kw) => TObj c (map (fun ka => (fst ka, decode n' log (snd ka))) kw)
-                  | None => TBad
-                  end
-      end
-  end.
 
 Definition otree_of_simple (v : value) : otree :=
   match v with VInt z => TInt z | VStr s => TStr s | _ => TNull end.
 
-(* does the decoded object `t` show exactly the configuration `v`?  class = the class built; every
-   configured keyword (init_args overridden by dict_kwargs) is there with the right (recursively
-   matching) value; any other keyword the constructor saw is a parameter left at its default *)
-Fixpoint tree_ok (n : nat) (F : family) (v : value) (t : otree) : bool :=
-  match n with
-  | 0 => false
-  | S n' =>
-      match v, t with
-      | VInt z, TInt z' => Z.eqb z z'
-      | VStr s, TStr s' => str_eqb s s'
-      | VNull, TNull => true
-      | VSpec cp ia dk, TObj c kw =>
-          match target F cp with
-          | Some (k, _) =>
-              str_eqb c (c_name k)
-              && forallb (fun kv => match aget (fst kv) dk with
-                                    | Some _ => true      (* overridden by dict_kwargs *)
-                                    | None => match aget (fst kv) kw with
-                                              | Some t' => tree_ok n' F (snd kv) t'
-                                              | None => false
-                                              end
-                                    end) ia
-              && forallb (fun kv => match aget (fst kv) kw with
-                                    | Some t' => tree_ok n' F (snd kv) t'
-                                    | None => false
-                                    end) dk
-              && forallb (fun kt => ahas (fst kt) ia || ahas (fst kt) dk
-                                    || match find_param (c_params k) (fst kt) with
-                                       | Some p => match p_def p, snd kt with
-                                                   | Some (VInt z), TInt z' => Z.eqb z z'
-                                                   | Some (VStr s), TStr s' => str_eqb s s'
-                                                   | Some VNull, TNull => true
-                                                   | _, _ => false
-                                                   end
-                                       | None => false
-                                       end) kw
-          | None => false
-          end
-      | _, _ => false
+(* what a generated constructor records: its parameters in signature order after call binding (the
+   default where the keyword is absent), then the keywords caught by **kw *)
+Definition bound_tree (ps : list param) (kw : list (str * otree)) : list (str * otree) :=
+  map (fun p => (p_name p, match aget (p_name p) kw with
+                           | Some t => t
+                           | None => match p_def p with Some d => otree_of_simple d | None => TNull end
+                           end)) ps
+  ++ filter (fun kt => match find_param ps (fst kt) with Some _ => false | None => true end) kw.
+
+(* the object a configuration denotes: an instance of exactly the class named by class_path (the
+   class a named function returns), called with exactly init_args updated by dict_kwargs, class-typed
+   arguments being the objects their own configurations denote *)
+Fixpoint denote (F : family) (v : value) {struct v} : otree :=
+  match v with
+  | VInt z => TInt z
+  | VStr s => TStr s
+  | VNull => TNull
+  | VSpec cp ia dk =>
+      match target F cp with
+      | Some (k, _) =>
+          TObj (c_name k)
+               (bound_tree (c_params k)
+                  (aupdate (map (fun kv => (fst kv, denote F (snd kv))) ia)
+                           (map (fun kv => (fst kv, otree_of_simple (snd kv))) dk)))
+      | None => TBad
       end
+  end.
+
+(* reading a constructor log: entry number i may only refer to entries < i (children are built
+   first); a forward or dangling reference reads as TBad *)
+Definition arg_tree (ts : list otree) (a : arg) : otree :=
+  match a with
+  | AInt z => TInt z
+  | AStr s => TStr s
+  | ANull => TNull
+  | ARef i => nth i ts TBad
+  end.
+
+Fixpoint trees_from (log : list entry) (acc : list otree) : list otree :=
+  match log with
+  | [] => acc
+  | (c, kw) :: log' =>
+      trees_from log' (acc ++ [TObj c (map (fun ka => (fst ka, arg_tree acc (snd ka))) kw)])
+  end.
+Definition trees (log : list entry) : list otree := trees_from log [].
+
+Fixpoint otree_eqb (a b : otree) {struct a} : bool :=
+  match a, b with
+  | TInt x, TInt y => Z.eqb x y
+  | TStr x, TStr y => str_eqb x y
+  | TNull, TNull => true
+  | TObj c kw, TObj c' kw' =>
+      str_eqb c c' &&
+      (fix go (l : list (str * otree)) (l' : list (str * otree)) {struct l} : bool :=
+         match l, l' with
+         | [], [] => true
+         | kt :: r, kt' :: r' => str_eqb (fst kt) (fst kt') && otree_eqb (snd kt) (snd kt') && go r r'
+         | _, _ => false
+         end) kw kw'
+  | _, _ => false   (* TBad equals nothing, not even itself *)
   end.
 
 Definition refs_of (kw : list (str * arg)) : list nat :=
@@ -179,10 +178,11 @@ Fixpoint nodupb (l : list nat) : bool :=
   match l with [] => true | x :: l' => negb (mem_nat x l') && nodupb l' end.
 
 Definition inst_ok (F : family) (v : value) (root : arg) (log : list entry) : bool :=
-  Nat.eqb (length log) (nodes 60 v)                              (* one constructor call per spec node *)
-  && backward 0 log
+  Nat.eqb (length log) (nodes v)                                 (* one constructor call per spec node *)
+  && backward 0 log                                              (* children first *)
   && nodupb (match root with ARef i => [i] | _ => [] end ++ flat_map (fun e => refs_of (snd e)) log)
-  && tree_ok 60 F v (decode 60 log root).
+                                                                 (* every object is handed on once *)
+  && otree_eqb (arg_tree (trees log) root) (denote F v).         (* exactly the configured object *)
 
 (* ---------- (S3) the explicit form of a sequence of argv items -------------------------------- *)
 Definition resolve_short (F : family) (base nm : str) : str :=
